@@ -59,7 +59,9 @@ CLAIMED["C20"] = dict(
 CLAIMED["C01"] = dict(
     text="Proof (Lean 4), for every validated machine set, fractions, oracle and history with arbitrary batches, unknown/huge ids and arbitrary (also backwards) clocks: "
          "no index is ever out of range, the transition recursion needs at most 6 of its 8 fuel units (CounterZero guard), every reached state is valid; the only fault the "
-         "model can raise is the checked Duration addition of the blocking accounting, shown reachable by a kernel-evaluated witness that panics the real code too (known finding F6). "
+         "model can raise is the checked Duration addition of the blocking accounting, shown reachable by a kernel-evaluated witness that panics the real code too (known finding F6), "
+         "and excluded (C01_total: no fault of any kind) whenever all clock values lie in a window of width B with (calls+1)*B <= Duration::MAX, by a potential argument (blocked + ongoing grows by at most B per call). "
+         "The oracle abstracts the rand_distr samplers: a panic inside a sampler is outside the model and is caught by the monitor (known finding F12). "
          "The work bound is a theorem on the model's ghost log (at most 3(events+1)(machines+1) transition invocations per call, any machines/oracle/batch); the monitor checks the implementation's hooked log against the bound and for panics.",
     ref="5 (C01)",
     technique="Lean 4: safety induction over the mutually recursive transition/update_counter with a fuel measure + bounded call-level walker; differential correspondence incl. panic class; monitor for the work bound",
